@@ -100,3 +100,26 @@ var verifFuncs = map[string]interface{}{
 	"VerifC17Full": VerifC17Full,
 	"VerifC17Cut":  VerifC17Cut,
 }
+
+// ---------------------------------------------------------------- C18
+
+// VerifC18Changelog: Parse returns entries or an error (then no entries), ParseOne a value or an error, and the
+// outcome is the same when called again.
+func VerifC18Changelog(s string) int {
+	l1, e1 := Parse(strings.NewReader(s))
+	if e1 != nil && len(l1) != 0 {
+		return 1
+	}
+	l2, e2 := Parse(strings.NewReader(s))
+	if (e1 == nil) != (e2 == nil) || len(l1) != len(l2) {
+		return 2
+	}
+	for i := range l1 {
+		if dumpEntry(&l1[i]) != dumpEntry(&l2[i]) {
+			return 3
+		}
+	}
+	return 0
+}
+
+func init() { verifFuncs["VerifC18Changelog"] = VerifC18Changelog }
